@@ -1428,6 +1428,9 @@ type joinClient struct {
 	sjErr      error
 	honest     bool
 	createLost bool
+	// rogue: a resident that admits anybody, with a template citing only state
+	// events that do not stand in the way
+	rogue bool
 }
 
 func (jc *joinClient) MakeJoin(ctx context.Context, origin, s spec.ServerName, roomID, userID string) (gmsl.MakeJoinResponse, error) {
@@ -1451,13 +1454,39 @@ func (jc *joinClient) MakeJoin(ctx context.Context, origin, s spec.ServerName, r
 	}
 	q := c.newQuerier()
 	tb := &templateBuilder{c: c}
-	resp, err := c.callMakeJoin(c.honestMakeJoin(q, tb, origin, uid, rid), q, tb)
-	if err != nil {
-		jc.mjErr = err
-		return nil, err
+	var tpl gmsl.ProtoEvent
+	var ver gmsl.RoomVersion
+	if jc.rogue {
+		// The template cites the room's create, power-levels and join-rules
+		// events - every one of them part of the current state - and leaves
+		// out the user's own membership event, whatever it says.
+		tpl = gmsl.ProtoEvent{SenderID: userID, RoomID: roomID, Type: spec.MRoomMember, StateKey: &userID}
+		_ = tpl.SetContent(map[string]any{"membership": "join"})
+		tpl.PrevEvents = []string{rm.tip.id}
+		tpl.Depth = rm.tip.ev.Depth() + 1
+		var cited []gmsl.PDU
+		for _, typ := range []string{spec.MRoomCreate, spec.MRoomPowerLevels, spec.MRoomJoinRules} {
+			if n := rm.nodes[rm.tip.after[skey{typ, ""}]]; n != nil {
+				cited = append(cited, n.ev)
+			}
+		}
+		eb := rm.impl.NewEventBuilderFromProtoEvent(&tpl)
+		if err := eb.AddAuthEvents(provOf(cited)); err != nil {
+			jc.mjErr = err
+			return nil, err
+		}
+		tpl.AuthEvents = eb.AuthEvents
+		ver = rm.ver
+		c.r.Probe("rogue_resident_offers_a_template_without_the_member_event")
+	} else {
+		resp, err := c.callMakeJoin(c.honestMakeJoin(q, tb, origin, uid, rid), q, tb)
+		if err != nil {
+			jc.mjErr = err
+			return nil, err
+		}
+		tpl = resp.JoinTemplateEvent
+		ver = resp.RoomVersion
 	}
-	tpl := resp.JoinTemplateEvent
-	ver := resp.RoomVersion
 	switch jc.tplFault {
 	case "template_wrong_type":
 		tpl.Type = "m.room.power_levels"
@@ -1503,10 +1532,18 @@ func (jc *joinClient) SendJoin(ctx context.Context, origin, s spec.ServerName, e
 		jc.sjErr = spec.NotFound("unknown room")
 		return nil, jc.sjErr
 	}
-	resp, err := c.callSendJoin(in, event, append([]byte{}, event.JSON()...), q, false)
-	if err != nil {
-		jc.sjErr = err
-		return nil, err
+	var acceptedJoin []byte
+	if jc.rogue {
+		// ... and accepts the join as it comes, adding its signature
+		acceptedJoin = event.Sign(string(rm.R().Name), k.ID, k.Priv).JSON()
+		c.r.Probe("rogue_resident_accepts_the_join")
+	} else {
+		resp, err := c.callSendJoin(in, event, append([]byte{}, event.JSON()...), q, false)
+		if err != nil {
+			jc.sjErr = err
+			return nil, err
+		}
+		acceptedJoin = resp.JoinEvent.JSON()
 	}
 	state := rm.pdus(rm.tip.after)
 	// an honest resident also runs the auth rules on the join before accepting it
@@ -1523,7 +1560,7 @@ func (jc *joinClient) SendJoin(ctx context.Context, origin, s spec.ServerName, e
 			c.r.Nontriv = true
 		}
 	}
-	out := &fclient.RespSendJoin{Origin: rm.R().Name, Event: append([]byte{}, resp.JoinEvent.JSON()...)}
+	out := &fclient.RespSendJoin{Origin: rm.R().Name, Event: append([]byte{}, acceptedJoin...)}
 	switch jc.sjFault {
 	case "create_missing":
 		create := rm.order[0]
@@ -1608,8 +1645,10 @@ func (c *c15) opPerformJoin() {
 		k := []string{"template_wrong_type", "template_wrong_room", "template_redacts", "template_unknown_version", "template_other_sender",
 			"create_missing", "create_only_in_state", "create_unknown_version", "remote_event_not_a_join", "remote_event_other_user", "remote_event_garbage", "remote_event_absent",
 			"send_join_state_faults", "resident_skips_auth", "remote_event_other_sender", "remote_event_thin_auth",
-			"template_no_version", "remote_event_other_room", "remote_event_odd_membership"}[t.Weighted([]int{2, 2, 2, 2, 1, 4, 2, 3, 2, 2, 1, 1, 6, 2, 3, 3, 2, 2, 1})]
+			"template_no_version", "remote_event_other_room", "remote_event_odd_membership", "resident_admits_whom_the_state_forbids"}[t.Weighted([]int{2, 2, 2, 2, 1, 4, 2, 3, 2, 2, 1, 1, 6, 2, 3, 3, 2, 2, 1, 4})]
 		switch {
+		case k == "resident_admits_whom_the_state_forbids":
+			jc.rogue, jc.honest = true, false
 		case k == "template_no_version":
 			// a legitimate answer where it is applied (rooms of version 1 or 4): not a fault
 			if jc.tplFault == "" {
